@@ -590,6 +590,23 @@ Fixpoint ymapM (l : list xexpr) : ylres :=
   end.
 End YMap.
 
+(* float64 has a negative zero (ceil(-0.5), round(-0.2), mod(-2, 1) ...) whose text is "-0"; the
+   rationals do not.  A zero COMPUTED by a nested call is therefore outside the model where the outer
+   function renders its argument as text (everywhere else -0 and 0 behave alike). *)
+Definition renders_text (g : bytes) : bool :=
+  name_in g [nm_upper; nm_lower; nm_trim; nm_ltrim; nm_rtrim; nm_length; nm_len; nm_concat; nm_substring;
+             nm_replace; nm_startswith; nm_endswith; nm_indexof; nm_split; nm_lpad; nm_rpad; nm_cast; nm_hex2dec;
+             nm_greatest; nm_least].
+Definition is_call (e : xexpr) : bool :=
+  match e with ECall _ _ | EParen (ECall _ _) => true | _ => false end.
+Definition is_zero_val (v : yvalue) : bool :=
+  match v with YS (VNum q) => qzero q | _ => false end.
+Fixpoint computed_zero (es : list xexpr) (vs : list yvalue) : bool :=
+  match es, vs with
+  | e :: es', v :: vs' => (is_call e && is_zero_val v) || computed_zero es' vs'
+  | _, _ => false
+  end.
+
 Section YSem.
 Variable row : yrow.
 (* a column that the row lacks is outside the model (the three dispatchers differ: finding F37) *)
@@ -600,7 +617,7 @@ Fixpoint ysem (e : xexpr) : yres :=
   | ECol c => match ylookup row c with Some v => YOk v | None => YUnm end
   | EParen x => ysem x
   | ECall g args => match ymapM ysem args with
-                    | LOk vs => fx_call g vs
+                    | LOk vs => if renders_text g && computed_zero args vs then YUnm else fx_call g vs
                     | LErr => YErr
                     | LUnm => YUnm
                     end
